@@ -163,6 +163,18 @@ def h_done(wp, n, args, obj):
     return r
 
 
+def h_converged(wp, n, args, obj):
+    """interval.converged(c1, c2, epsilon_k): contract proved by back end A (cgd_converged):
+    ret <=> the tentative state is valid and a criterion pair evaluated to true on (c, step_size)"""
+    if chain_key(wp, obj) != 'interval':
+        raise Unsupported(f'{wp.name}: converged() of an unknown interval')
+    c1, c2, eps = (wp.conv(wp.ev(a), 'Real', 'double') for a in args[:3])
+    r = wp.fresh('Bool', 'converged', 'bool')
+    adv = record_adv(wp, c1, c2, eps)
+    wp.assume(f'(= {r.t} (and {wp.env["state.valid"].t} {adv.t}))')
+    return r
+
+
 def havoc_search(wp, extra):
     """common part of the contracts of bracket / move_update_and_check_done (back end A: cgd_bracket, cgd_muc): the interval
     tail and the tentative state change, the tentative state is the evaluation at interval.step_size, the budget only
@@ -240,7 +252,7 @@ def build_cgd():
     return mk('advertised/cgdescent_do_get', CGD, CGD_FLT, 'do_get', setup, {1: inv},
               'CG_DESCENT do_get composed from the contracts of its helpers: state at the returned step, budget, advertised criterion', post=advertised_cgd,
               calls=[(r'^operator\(\)\|bool \(const double\) const\|\(lambda', h_muc), (r'^secant\|', lambda wp, n, a, c: wp.fresh('Real', 'secant', 'double'))],
-              members=[(r'^done\|.*interval_t', h_done), (r'^bracket\|.*lsearchk_cgdescent_t', h_bracket)])
+              members=[(r'^done\|.*interval_t', h_done), (r'^converged\|.*interval_t', h_converged), (r'^bracket\|.*lsearchk_cgdescent_t', h_bracket)])
 
 
 def build():
